@@ -35,6 +35,13 @@ META = {
 }
 
 
+def run_extra(ctx: Ctx):
+    # ---------------------------------------------------------------- R08.12 answers never come from state that outlives the question
+    from .common import process_state_rule
+    process_state_rule(ctx, "R08.12", [ctx.repo.func("Project.schedule")],
+                       "a readiness, successor or calendar answer is taken from another slot, scenario or project", census=True)
+
+
 def run(ctx: Ctx):
     repo = ctx.repo
     slot = repo.func("TaskScenario.scheduleSlot")
